@@ -1,15 +1,22 @@
 #!/bin/sh
-# usage: tools/sweep.sh <tier> <seed-list> <check-id>...  — run checks under several seeds with a private
-# copy of the already built binary (so that later rebuilds in /verif, e.g. against a mutated /repo, cannot
-# leak into the sweep), writing evidence into the current directory (meant for `vp run`).
+# usage: tools/sweep.sh <tier> <seed-list> <check-id>...  — run checks under several seeds (meant for
+# `vp run`). Builds its own binary from the snapshot's sources against /repo, and refuses to do so
+# while /repo has uncommitted changes (a mutant being tried), so later rebuilds in /verif cannot
+# leak into the sweep. Evidence is written into the current directory.
 TIER="$1"; SEEDS="$2"; shift 2
 export VERIF_DIR="$PWD"
+export CARGO_NET_OFFLINE=true
 mkdir -p "$VERIF_DIR/evidence"
-[ -f "$VERIF_DIR/known_findings.json" ] || cp /verif/known_findings.json "$VERIF_DIR/"
-[ -d "$VERIF_DIR/findings" ] || cp -r /verif/findings "$VERIF_DIR/"
-cp /verif/target/release/pvsim "$VERIF_DIR/pvsim.snapshot" || exit 2
+i=0
+while [ -n "$(git -C /repo status --porcelain --untracked-files=no)" ]; do
+  i=$((i+1)); [ $i -gt 120 ] && { echo "repo stays dirty"; exit 2; }
+  sleep 5
+done
+(cd "$VERIF_DIR/sim" && CARGO_TARGET_DIR="$VERIF_DIR/target" cargo build --release --offline >/dev/null 2>&1) || { echo "build failed"; exit 2; }
+[ -n "$(git -C /repo status --porcelain --untracked-files=no)" ] && { echo "repo changed during the build"; exit 2; }
+echo "sweep binary built from /repo $(git -C /repo rev-parse --short HEAD)"
 for s in $SEEDS; do
   for id in "$@"; do
-    "$VERIF_DIR/pvsim.snapshot" check "$id" --tier "$TIER" --seed "$s" 2>&1 | grep -v "^VERIF_SEED"
+    "$VERIF_DIR/target/release/pvsim" check "$id" --tier "$TIER" --seed "$s" 2>&1 | grep -v "^VERIF_SEED"
   done
 done
